@@ -1,25 +1,65 @@
 """Implementation adapter for C05: same request lines as ocaml/c05_driver.ml, answered by /repo through
-Output(...), Transaction.add_output(...), Output(lock_script=...).address/.script_type (public API only).
-Answer: "<lock hex> <script_type> <network name> <address string>" ("-" = empty string, ERR = raises) or ERR."""
+Output(...), Transaction.add_output(...), Output(lock_script=...).address/.script_type, Transaction.parse(raw).outputs
+(public API only).
+Answer: "<lock hex> <script_type> <network name> <address string>" ("-" = empty string, ERR = raises) or ERR.
+
+via: out = Output(1000, network=N, ...)                       add = Transaction(network=N).add_output(1000, ...)
+     tx  = a raw transaction (written here byte by byte) paying to the script, read with Transaction.parse(raw, network=N)
+     rt  = Output(...) put into Transaction(outputs=[o]), serialised with raw() and read back with Transaction.parse"""
 import sys, os, logging
 sys.path.insert(0, os.path.dirname(os.path.abspath(__file__)))
 from common_impl import hx, unhx, serve
 logging.disable(logging.CRITICAL)
 from bitcoinlib.transactions import Output, Transaction
-from bitcoinlib.keys import Address, HDKey
+from bitcoinlib.keys import Address, HDKey, Key
+
+# private keys 1, 2, 3 and their public keys (the generator point and its multiples; fixed test constants)
+_PUB = {
+    '0279be667ef9dcbbac55a06295ce870b07029bfcdb2dce28d959f2815b16f81798': 1,
+    '02c6047f9441ed7d6d3045406e95c07cd85c778e4b8cef3ca7abac09b95c709ee5': 2,
+    '02f9308a019258c31049344f85f89d5229b531c845836f99b08601f113bce036f9': 3,
+    '0479be667ef9dcbbac55a06295ce870b07029bfcdb2dce28d959f2815b16f81798'
+    '483ada7726a3c4655da4fbfc0e1108a8fd17b448a68554199c47d08ffb10d4b8': 1,
+}
+CHAIN = bytes(range(32))
+PREV = bytes([0xaa]) * 32
 
 
 def opt(t):
     return None if t == '-' else t
 
 
+def varint(n):
+    if n < 253:
+        return bytes([n])
+    if n < 65536:
+        return b'\xfd' + n.to_bytes(2, 'little')
+    return b'\xfe' + n.to_bytes(4, 'little')
+
+
+def raw_tx_paying_to(script, value=1000):
+    """version 1, one input (no script), one output, locktime 0 — the legacy wire format, written by hand"""
+    return (b'\x01\x00\x00\x00' + b'\x01' + PREV + b'\x00\x00\x00\x00' + b'\x00' + b'\xff\xff\xff\xff' +
+            b'\x01' + value.to_bytes(8, 'little') + varint(len(script)) + script + b'\x00\x00\x00\x00')
+
+
 def make(net, via, **kw):
     kw = {k: v for k, v in kw.items() if v is not None}
     if via == 'out':
         return Output(1000, network=net, **kw)
-    t = Transaction(network=net)
-    t.add_output(1000, **kw)
-    return t.outputs[-1]
+    if via == 'add':
+        t = Transaction(network=net)
+        t.add_output(1000, **kw)
+        return t.outputs[-1]
+    if via == 'tx':
+        t = Transaction.parse(raw_tx_paying_to(kw['lock_script']), network=net)
+        return t.outputs[0]
+    if via == 'rt':
+        o = Output(1000, network=net, **kw)
+        t = Transaction(outputs=[o], network=net)
+        t.add_input(PREV, 0)
+        return Transaction.parse(t.raw(), network=net).outputs[0]
+    raise ValueError(via)
 
 
 def show(o):
@@ -30,6 +70,26 @@ def show(o):
         a = 'ERR'
     st = o.script_type if o.script_type else '-'
     return '%s %s %s %s' % (hx(o.lock_script), st, o.network.name, a)
+
+
+def priv_of(pub):
+    return _PUB[pub.hex()].to_bytes(32, 'big')
+
+
+def hdkey(form, pub, net, wt, ms):
+    if form == 'raw':
+        return HDKey(pub, network=net, witness_type=wt, multisig=ms)
+    if form == 'pubkc':
+        return HDKey(key=pub, chain=CHAIN, is_private=False, network=net, witness_type=wt, multisig=ms)
+    if form == 'priv64':
+        return HDKey(priv_of(pub) + CHAIN, network=net, witness_type=wt, multisig=ms)
+    if form == 'privkc':
+        return HDKey(key=priv_of(pub), chain=CHAIN, network=net, witness_type=wt, multisig=ms)
+    if form == 'keyobj':
+        return HDKey(Key(priv_of(pub), network=net), network=net, witness_type=wt, multisig=ms)
+    if form == 'public':
+        return HDKey(priv_of(pub) + CHAIN, network=net, witness_type=wt, multisig=ms).public()
+    raise ValueError(form)
 
 
 def dispatch(t):
@@ -44,17 +104,35 @@ def dispatch(t):
         if k == 'aobj':
             a = Address(hashed_data=unhx(t[7]), script_type=opt(t[4]), encoding=opt(t[5]), witver=int(t[6]), network=t[3])
             return show(make(t[1], t[2], address=a))
+        if k == 'adata':
+            a = Address(data=unhx(t[7]), script_type=opt(t[4]), encoding=opt(t[5]), witver=int(t[6]), network=t[3])
+            return show(make(t[1], t[2], address=a))
         if k == 'hd':
-            h = HDKey(unhx(t[6]), network=t[3], witness_type=t[4], multisig=(t[5] == '1'))
+            form = t[10] if len(t) > 10 else 'raw'
+            h = hdkey(form, unhx(t[6]), t[3], t[4], t[5] == '1')
             return show(make(t[1], t[2], address=h))
+        if k == 'key':
+            pub = unhx(t[5])
+            if t[4] == 'kpub':
+                ko = Key(pub, network=t[3])
+            else:
+                ko = Key(priv_of(pub), network=t[3], compressed=(len(pub) == 33))
+            if ko.public_byte != pub:
+                return 'BADREQ'
+            return show(make(t[1], t[2], address=ko.address_obj))
         if k == 'pk':
             return show(make(t[1], t[2], public_key=unhx(t[5]), script_type=opt(t[3]), encoding=opt(t[4])))
         if k == 'hash':
             wv = int(t[4])
-            return show(make(t[1], t[2], public_hash=unhx(t[6]), script_type=opt(t[3]), witver=(wv if t[2] == 'out' else None),
+            return show(make(t[1], t[2], public_hash=unhx(t[6]), script_type=opt(t[3]), witver=(wv if t[2] != 'add' else None),
                              encoding=opt(t[5])))
         if k == 'script':
             return show(make(t[1], t[2], lock_script=unhx(t[3])))
+        if k == 'gen':
+            wv = int(t[9])
+            return show(make(t[1], t[2], address=opt(t[4]), public_hash=(unhx(t[5]) or None), public_key=(unhx(t[6]) or None),
+                             lock_script=(unhx(t[7]) or None), script_type=opt(t[8]), witver=(wv if wv else None),
+                             encoding=opt(t[10])))
     except RecursionError:
         raise
     except Exception:
